@@ -1986,8 +1986,17 @@ class Engine:
             tgt = self.subtree(st, v[1], v[2])
             if len(tgt) > 200:
                 return None
-            # one more level for nested refs
-            return dict(tgt)
+            out = dict(tgt)
+            # one more level: what the references stored inside point to (key + ('*',) + relative path)
+            n_extra = 0
+            for k, vv in list(tgt.items()):
+                if vv[0] == "r" and "E" not in vv[2] and n_extra < 40:
+                    inner = self.subtree(st, vv[1], vv[2])
+                    if len(inner) <= 24:
+                        n_extra += 1
+                        for k2, v2 in inner.items():
+                            out[k + ("*",) + k2] = v2
+            return out
         if v is None:
             return dict(sub)
         return None
